@@ -357,6 +357,9 @@ func GenCase(t *rapid.T, opts CaseOpts) *Case {
 
 	// access list
 	full := completeAccessList()
+	for _, a := range g.Created {
+		full = append(full, types.AccessTuple{Address: a, StorageKeys: []common.Hash{{}, common.BigToHash(big.NewInt(1))}})
+	}
 	switch rapid.IntRange(0, 9).Draw(t, "alclass") {
 	case 0:
 		tx.AccessList, tx.ALClass = nil, "empty"
@@ -465,7 +468,9 @@ func GenCase(t *rapid.T, opts CaseOpts) *Case {
 	// mode
 	c.Mode = opts.ForceMode
 	if c.Mode == "" {
-		c.Mode = []string{ModeTracedBypass, ModeTracedBypass, ModeTracedBypass, ModeTracedBypass, ModeTracedEnforced, ModeTracedEnforced, ModeTracedEnforced, ModeTracedEnforced, ModeUntraced, ModeUntraced}[rapid.IntRange(0, 9).Draw(t, "mode")]
+		// the enforced modes are what block processing does; the bypass mode (what Debug alone gives:
+		// RPC tracing, eth_call) is kept as a minority because it reaches deeper nesting
+		c.Mode = []string{ModeTracedEnforced, ModeTracedEnforced, ModeTracedBypass, ModeUntraced, ModeTracedEnforced, ModeTracedBypass, ModeTracedEnforced, ModeUntraced, ModeTracedBypass, ModeTracedEnforced}[rapid.IntRange(0, 9).Draw(t, "mode")]
 	}
 	c.Kinds = g.Kinds
 	return c
@@ -514,6 +519,7 @@ type Outcome struct {
 	Payer   *common.InternalAddress
 	Refund  *big.Int // the state-rent refund of one self-destruct in this environment
 	Created *common.Address
+	Broken  string // non-empty: the post-state could not be hashed (e.g. a negative balance)
 }
 
 // Run builds the world, executes the transaction and snapshots balances before and after.
@@ -538,7 +544,12 @@ func (c *Case) Run() (*Outcome, error) {
 	}
 	o.Res = c.Env.ApplyTx(w, tx, 0, cfg)
 	if o.After, err = Snapshot(w.SDB); err != nil {
-		return nil, err
+		if be, ok := err.(*BrokenStateError); ok {
+			o.Broken = be.Msg // for the oracles: a state that cannot be hashed is a finding, not a harness problem
+			o.After = &Balances{ByAddr: map[common.InternalAddress]*big.Int{}, Sum: new(big.Int)}
+		} else {
+			return nil, err
+		}
 	}
 	if c.Tx.Kind == "quai" {
 		in, err := U().EOAs[c.Tx.From].Addr.InternalAndQuaiAddress()
